@@ -1,63 +1,481 @@
 //@unit props=C03,C13 tier=quick rlimit=30
 //@file src/algo/dijkstra_dist.rs
+// C03 for Dijkstra / DijkstraDist (src/algo/dijkstra.rs, src/algo/dijkstra_dist.rs), C13 for every index they touch.
+//
+// State abstraction: (digraph, dist@, heap multiset).  `inv(s)` (= dj_inv in speclib/dijkstra_lemmas.rs) is a
+// label-correcting invariant for the source set s: every heap item and every label has a duplicate-free witness
+// path of exactly that weight, no heap item occurs twice, and a labelled vertex either still has its current label
+// pending in the heap or none of its out-arcs can be relaxed.  The source set is not stored in the struct, so the
+// contracts of `next` quantify over it (requires exists s, ensures forall s).
+// `next` additionally exposes (a) the relation between its pre- and post-state (`trans` / `ret_rel`: labels only go
+// down, which vertices can become done / pending, key monotonicity, the termination measure), (b) that a returned
+// key is the exact distance (feasible potential min(dist, key), no settled-set argument), and (c) two derived step
+// rules for a client that folds the items into a table (`res_inv`) or records them (`trace_inv`).
+// `distances` is verified against those rules only; its postcondition is C03's first sentence, and the ghost trace
+// `em` of the items its `for u in self` loop receives is shown to satisfy C03's second sentence (`yields_ok`).
+// Arithmetic side condition ("path sums fit in usize"): `paths_fit` - see speclib/dijkstra_lemmas.rs.
 #![feature(allocator_api)]
 use vstd::prelude::*;
 use std::collections::BinaryHeap;
 use core::cmp::Reverse;
 use vstd::multiset::Multiset;
 use vstd::std_specs::iter::IteratorSpec;
+use vstd::slice::SliceIndexSpec;
 verus! {
 global size_of usize == 8;
 //@include prelude/std_contracts.rs
 //@include prelude/dgw_usize.rs
 //@include prelude/binary_heap.rs
 //@include speclib/graph.rs
+//@include speclib/dijkstra_lemmas.rs
+
+/// x is among the out-neighbours still to come
+spec fn later<'b>(nb: Seq<(usize, &'b usize)>, idx: int, x: int) -> bool {
+    exists|i: int| idx <= i < nb.len() && (#[trigger] nb[i]).0 == x
+}
+/// the out_neighbors_weighted contract of vertex u, over the whole item sequence
+spec fn nbrs_ok<'b>(dg: &Dgw, u: int, nb: Seq<(usize, &'b usize)>) -> bool {
+    forall|i: int| 0 <= i < nb.len() ==> dg.has(u, (#[trigger] nb[i]).0 as int) && *nb[i].1 == dg.wt(u, nb[i].0 as int)
+}
 
 /*@type name=Step @*/
 
 /*@struct name=DijkstraDist subst=D=>Dgw drop=D @*/
 
 impl<'a> DijkstraDist<'a> {
-    spec fn inv0(&self) -> bool {
-        &&& self.digraph.wf()
-        &&& self.dist.len() == self.digraph.ord()
-        &&& forall|it: (Reverse<usize>, usize)| #[trigger] heap_items(&self.heap).count(it) > 0 ==> it.1 < self.dist.len()
-    }
+    spec fn items(&self) -> Multiset<HItem> { heap_items(&self.heap) }
+    /// invariant between calls, for the source set s
+    spec fn inv(&self, s: Set<int>) -> bool { dj_inv(self.digraph, self.dist@, self.items(), s) }
+    /// state as built by `new`: sources labelled 0 and pending once, everything else unlabelled
+    spec fn is_fresh(&self) -> bool { fresh(self.digraph, self.dist@, self.items()) }
+    spec fn srcs(&self) -> Set<int> { srcs_of(self.dist@) }
 
     /*@fn impl=DijkstraDist name=new subst=D=>Dgw drop=D dropwhere=D
     requires
         digraph.wf(),
         sources.obeys_prophetic_iter_laws(),
         sources.decrease() is Some,
+        sources.remaining().no_duplicates(),
     ensures
-        r.inv0(),
+        r.digraph == digraph,
+        r.is_fresh(),
+        forall|v: int| #[trigger] r.srcs().contains(v) <==> 0 <= v <= usize::MAX && sources.remaining().contains(v as usize),
+    @fn_start
+        let ghost src0 = sources.remaining();
+        let ghost mut done_src: Seq<usize> = Seq::empty();
     @loop 1
     invariant
-        true,
+        it1.iter.obeys_prophetic_iter_laws(),
+        it1.iter.decrease() is Some,
+        it1.seq() == src0,
+        src0.no_duplicates(),
+        digraph.wf(),
+        order == digraph.ord(),
+        dist@.len() == order,
+        done_src == src0.take(it1.index@),
+        fresh_from(dist@, heap_items(&heap), done_src),
+    @loop_start 1
+        let ghost d_pre = dist@;
+        let ghost h_pre = heap_items(&heap);
+    @loop_end 1
+        proof {
+            assert(!done_src.contains(u)) by {
+                if done_src.contains(u) {
+                    let i = choose|i: int| 0 <= i < done_src.len() && done_src[i] == u;
+                    assert(src0[i] == src0[it1.index@]);
+                }
+            }
+            lemma_fresh_step(d_pre, h_pre, done_src, u);
+            assert(src0.take(it1.index@ + 1) =~= done_src.push(u));
+            done_src = done_src.push(u);
+        }
+    @fn_end
+        proof {
+            assert(done_src =~= src0);
+            lemma_fresh_from_fresh(digraph, dist@, heap_items(&heap), src0);
+        }
     @*/
 
     /*@fn impl=DijkstraDist trait=Iterator name=next subst=Self::Item=>(usize,usize)
     requires
-        old(self).inv0(),
+        exists|s: Set<int>| old(self).inv(s),
     ensures
-        final(self).inv0(),
+        final(self).digraph == old(self).digraph,
+        forall|s: Set<int>| #[trigger] old(self).inv(s) ==> final(self).inv(s),
+        r is None ==> final(self).items().len() == 0,
+        r is None ==> trans(old(self).dist@, old(self).items(), final(self).dist@, final(self).items()),
+        r matches Some(st) ==> st.1 < usize::MAX && ret_rel(old(self).dist@, old(self).items(), final(self).dist@, final(self).items(), st.0 as int, st.1 as int),
+        r matches Some(st) ==> forall|s: Set<int>| #[trigger] old(self).inv(s) ==> is_min_walk_weight(has_of(old(self).digraph), wt_of(old(self).digraph), s, st.0 as int, st.1 as int),
+        forall|res: Seq<usize>| #[trigger] res_inv(old(self).dist@, old(self).items(), res) ==> res_inv(final(self).dist@, final(self).items(), match r { Some(st) => res.update(st.0 as int, st.1), None => res }),
+        forall|s: Set<int>, em: Seq<(usize, usize)>| old(self).inv(s) && #[trigger] trace_inv(old(self).digraph, old(self).dist@, old(self).items(), s, em)
+            ==> trace_inv(old(self).digraph, final(self).dist@, final(self).items(), s, match r { Some(st) => em.push(st), None => em }),
+    @fn_start
+        let ghost s0 = choose|s: Set<int>| old(self).inv(s);
+        let ghost dg = self.digraph;
+        let ghost d0 = self.dist@;
+        let ghost h0 = self.items();
+        proof { lemma_trans_refl(d0, h0); }
     @loop 1
     invariant
-        true,
+        self.digraph == dg,
+        d0 == old(self).dist@, h0 == old(self).items(), dg == old(self).digraph,
+        old(self).inv(s0),
+        forall|s: Set<int>| #[trigger] old(self).inv(s) ==> self.inv(s),
+        trans(d0, h0, self.dist@, self.items()),
+    decreases
+        dsum(self.dist@), self.items().len(),
+    @loop_start 1
+        let ghost dm = self.dist@;
+        let ghost hm = self.items();
+        proof {
+            lemma_res_none(d0, h0, dm, hm);
+            lemma_dsum_nonneg(dm);
+            assert forall|s: Set<int>, em: Seq<(usize, usize)>| old(self).inv(s) && #[trigger] trace_inv(dg, d0, h0, s, em) implies trace_inv(dg, dm, hm, s, em) by {
+                lemma_trace_none(dg, d0, h0, dm, hm, s, em);
+            }
+        }
+    @after `let (Reverse(w_prev), u)`
+        let ghost it0: HItem = (Reverse(w_prev), u);
+        let ghost ha = self.items();
+        let ghost um: int = if dm[u as int] == w_prev { u as int } else { -1 };
+        let ghost mut seen: Set<int> = Set::empty();
+        proof {
+            broadcast use axiom_ord_le_reverse_key;
+            assert(hm.count(it0) > 0 && ha == hm.remove(it0));
+            assert(dj_inv(dg, dm, hm, s0));
+            lemma_pop(dg, dm, hm, s0, it0);
+            assert(keys_ge(hm, w_prev as int)) by {
+                assert forall|j: HItem| #[trigger] hm.count(j) > 0 implies j.0.0 >= w_prev by { assert(ord_le(j, it0)); }
+            }
+            assert forall|s: Set<int>| #[trigger] old(self).inv(s) implies dj_inv_x(dg, self.dist@, self.items(), s, um, seen)
+                && has_pwit(dg, self.dist@, s, u as int, w_prev as int) by {
+                lemma_pop(dg, dm, hm, s, it0);
+            }
+            lemma_relax_rel_refl(dm, ha, w_prev as int);
+        }
     @loop 2
     invariant
-        true,
+        it2.iter.obeys_prophetic_iter_laws(),
+        it2.iter.decrease() is Some,
+        self.digraph == dg, dg.wf(),
+        d0 == old(self).dist@, h0 == old(self).items(), dg == old(self).digraph,
+        old(self).inv(s0),
+        dm.len() == dg.ord(), self.dist@.len() == dg.ord(), u < dg.ord(),
+        it0 == (Reverse(w_prev), u),
+        trans(d0, h0, dm, hm), hm.count(it0) > 0, ha == hm.remove(it0), keys_ge(hm, w_prev as int),
+        forall|j: HItem| #[trigger] hm.count(j) <= 1,
+        dm[u as int] <= w_prev, self.dist@[u as int] <= w_prev,
+        um == -1 || (um == u && self.dist@[u as int] == w_prev),
+        nbrs_ok(dg, u as int, it2.seq()),
+        forall|x: int| #[trigger] dg.has(u as int, x) ==> seen.contains(x) || later(it2.seq(), it2.index@, x),
+        forall|s: Set<int>| #[trigger] old(self).inv(s) ==> dj_inv_x(dg, self.dist@, self.items(), s, um, seen)
+            && has_pwit(dg, self.dist@, s, u as int, w_prev as int),
+        relax_rel(dm, ha, self.dist@, self.items(), w_prev as int),
+    @before `let w_next`
+        let ghost dpre = self.dist@;
+        let ghost hpre = self.items();
+        proof {
+            assert((v, w) == it2.seq()[it2.index@]);
+            assert(dg.has(u as int, v as int) && *w == dg.wt(u as int, v as int));
+            lemma_extend_pwit(dg, dpre, s0, u as int, w_prev as int, v as int);
+        }
+    @loop_end 2
+        proof {
+            if w_next < dpre[v as int] {
+                assert forall|s: Set<int>| #[trigger] old(self).inv(s) implies dj_inv_x(dg, self.dist@, self.items(), s, um, seen.insert(v as int))
+                    && has_pwit(dg, self.dist@, s, u as int, w_prev as int) by {
+                    lemma_relax_update(dg, dpre, hpre, s, um, seen, u as int, w_prev, v as int, w_next);
+                }
+                lemma_relax_rel_step(dm, ha, dpre, hpre, w_prev as int, v as int, w_next);
+            } else {
+                assert forall|s: Set<int>| #[trigger] old(self).inv(s) implies dj_inv_x(dg, self.dist@, self.items(), s, um, seen.insert(v as int)) by {
+                    lemma_relax_skip(dg, dpre, hpre, s, um, seen, u as int, w_prev, v as int);
+                }
+            }
+            assert forall|x: int| #[trigger] dg.has(u as int, x) implies seen.insert(v as int).contains(x) || later(it2.seq(), it2.index@ + 1, x) by {
+                if x != v && !seen.contains(x) {
+                    let i = choose|i: int| it2.index@ <= i < it2.seq().len() && (#[trigger] it2.seq()[i]).0 == x;
+                    assert(i != it2.index@);
+                }
+            }
+            seen = seen.insert(v as int);
+        }
+    @before `if w_prev`
+        proof {
+            assert forall|x: int| dg.has(um, x) implies seen.contains(x) by {
+                if um == u as int { assert(dg.has(u as int, x)); }
+            }
+            assert forall|s: Set<int>| #[trigger] old(self).inv(s) implies self.inv(s) by {
+                lemma_relax_done(dg, self.dist@, self.items(), s, um, seen);
+            }
+            lemma_compose(d0, h0, dm, hm, it0, self.dist@, self.items());
+            lemma_dsum_nonneg(self.dist@);
+            if w_prev == self.dist@[u as int] {
+                lemma_pwit_fits(dg, self.dist@, s0, u as int, w_prev as int);
+                lemma_res_ret(d0, h0, self.dist@, self.items(), u as int, w_prev);
+                assert forall|s: Set<int>| #[trigger] old(self).inv(s) implies is_min_walk_weight(has_of(dg), wt_of(dg), s, u as int, w_prev as int) by {
+                    lemma_settled(dg, self.dist@, self.items(), s, u as int, w_prev as int);
+                }
+                assert forall|s: Set<int>, em: Seq<(usize, usize)>| old(self).inv(s) && #[trigger] trace_inv(dg, d0, h0, s, em) implies trace_inv(dg, self.dist@, self.items(), s, em.push((u, w_prev))) by {
+                    lemma_trace_ret(dg, d0, h0, self.dist@, self.items(), s, em, u, w_prev);
+                }
+            }
+        }
     @*/
 
     /*@fn impl=DijkstraDist name=distances subst=D=>Dgw dropwhere=D
     requires
-        old(self).inv0(),
+        old(self).is_fresh(),
+        paths_fit(old(self).digraph, old(self).srcs()),
     ensures
-        true,
+        r.len() == old(self).digraph.ord(),
+        forall|v: int| 0 <= v < r.len() ==> (r[v] == usize::MAX <==> !#[trigger] reachable(has_of(old(self).digraph), old(self).srcs(), v)),
+        forall|v: int| 0 <= v < r.len() && r[v] != usize::MAX ==> #[trigger] is_min_walk_weight(has_of(old(self).digraph), wt_of(old(self).digraph), old(self).srcs(), v, r[v] as int),
+    @fn_start
+        let ghost s = self.srcs();
+        let ghost dg = self.digraph;
+        let ghost mut em: Seq<(usize, usize)> = Seq::empty();
+        proof { lemma_fresh_inv(dg, self.dist@, self.items()); }
+    @after `let mut dist`
+        proof { lemma_res_fresh(self.dist@, self.items(), dist@); }
     @loop 1
     invariant
-        true,
+        self.digraph == dg, dg == old(self).digraph, s == old(self).srcs(),
+        self.inv(s),
+        res_inv(self.dist@, self.items(), dist@),
+        trace_inv(dg, self.dist@, self.items(), s, em),
+    ensures
+        self.items().len() == 0,
+    decreases
+        dsum(self.dist@), self.items().len(),
+    @loop_start 1
+        proof { lemma_dsum_nonneg(self.dist@); em = em.push(u); }
+    @fn_end
+        proof {
+            lemma_distances_final(dg, self.dist@, self.items(), s, dist@);
+            // C03, iteration clause: em is the sequence of items the `for u in self` loop above received
+            lemma_trace_final(dg, self.dist@, self.items(), s, em);
+            assert(yields_ok(dg, s, em));
+        }
     @*/
+}
+
+//@file src/algo/dijkstra.rs
+/*@struct name=Dijkstra subst=D=>Dgw drop=D @*/
+
+impl<'a> Dijkstra<'a> {
+    spec fn items(&self) -> Multiset<HItem> { heap_items(&self.heap) }
+    spec fn inv(&self, s: Set<int>) -> bool { dj_inv(self.digraph, self.dist@, self.items(), s) }
+    spec fn is_fresh(&self) -> bool { fresh(self.digraph, self.dist@, self.items()) }
+    spec fn srcs(&self) -> Set<int> { srcs_of(self.dist@) }
+
+    /*@fn impl=Dijkstra name=new subst=D=>Dgw drop=D dropwhere=D
+    requires
+        digraph.wf(),
+        sources.obeys_prophetic_iter_laws(),
+        sources.decrease() is Some,
+        sources.remaining().no_duplicates(),
+    ensures
+        r.digraph == digraph,
+        r.is_fresh(),
+        forall|v: int| #[trigger] r.srcs().contains(v) <==> 0 <= v <= usize::MAX && sources.remaining().contains(v as usize),
+    @fn_start
+        let ghost src0 = sources.remaining();
+        let ghost mut done_src: Seq<usize> = Seq::empty();
+    @loop 1
+    invariant
+        it1.iter.obeys_prophetic_iter_laws(),
+        it1.iter.decrease() is Some,
+        it1.seq() == src0,
+        src0.no_duplicates(),
+        digraph.wf(),
+        order == digraph.ord(),
+        dist@.len() == order,
+        done_src == src0.take(it1.index@),
+        fresh_from(dist@, heap_items(&heap), done_src),
+    @loop_start 1
+        let ghost d_pre = dist@;
+        let ghost h_pre = heap_items(&heap);
+    @loop_end 1
+        proof {
+            assert(!done_src.contains(u)) by {
+                if done_src.contains(u) {
+                    let i = choose|i: int| 0 <= i < done_src.len() && done_src[i] == u;
+                    assert(src0[i] == src0[it1.index@]);
+                }
+            }
+            lemma_fresh_step(d_pre, h_pre, done_src, u);
+            assert(src0.take(it1.index@ + 1) =~= done_src.push(u));
+            done_src = done_src.push(u);
+        }
+    @fn_end
+        proof {
+            assert(done_src =~= src0);
+            lemma_fresh_from_fresh(digraph, dist@, heap_items(&heap), src0);
+        }
+    @*/
+    /*@fn impl=Dijkstra trait=Iterator name=next subst=Self::Item=>usize
+    requires
+        exists|s: Set<int>| old(self).inv(s),
+    ensures
+        final(self).digraph == old(self).digraph,
+        forall|s: Set<int>| #[trigger] old(self).inv(s) ==> final(self).inv(s),
+        r is None ==> final(self).items().len() == 0,
+        r is None ==> trans(old(self).dist@, old(self).items(), final(self).dist@, final(self).items()),
+        r matches Some(y) ==> y < final(self).dist@.len() && final(self).dist@[y as int] < usize::MAX && ret_rel(old(self).dist@, old(self).items(), final(self).dist@, final(self).items(), y as int, final(self).dist@[y as int] as int),
+        r matches Some(y) ==> forall|s: Set<int>| #[trigger] old(self).inv(s) ==> is_min_walk_weight(has_of(old(self).digraph), wt_of(old(self).digraph), s, y as int, final(self).dist@[y as int] as int),
+        forall|s: Set<int>, em: Seq<(usize, usize)>| old(self).inv(s) && #[trigger] trace_inv(old(self).digraph, old(self).dist@, old(self).items(), s, em)
+            ==> trace_inv(old(self).digraph, final(self).dist@, final(self).items(), s, match r { Some(y) => em.push((y, final(self).dist@[y as int])), None => em }),
+    @fn_start
+        let ghost s0 = choose|s: Set<int>| old(self).inv(s);
+        let ghost dg = self.digraph;
+        let ghost d0 = self.dist@;
+        let ghost h0 = self.items();
+        proof { lemma_trans_refl(d0, h0); }
+    @loop 1
+    invariant
+        self.digraph == dg,
+        d0 == old(self).dist@, h0 == old(self).items(), dg == old(self).digraph,
+        old(self).inv(s0),
+        forall|s: Set<int>| #[trigger] old(self).inv(s) ==> self.inv(s),
+        trans(d0, h0, self.dist@, self.items()),
+    decreases
+        dsum(self.dist@), self.items().len(),
+    @loop_start 1
+        let ghost dm = self.dist@;
+        let ghost hm = self.items();
+        proof {
+            lemma_dsum_nonneg(dm);
+            assert forall|s: Set<int>, em: Seq<(usize, usize)>| old(self).inv(s) && #[trigger] trace_inv(dg, d0, h0, s, em) implies trace_inv(dg, dm, hm, s, em) by {
+                lemma_trace_none(dg, d0, h0, dm, hm, s, em);
+            }
+        }
+    @after `let (Reverse(w_prev), u)`
+        let ghost it0: HItem = (Reverse(w_prev), u);
+        let ghost ha = self.items();
+        let ghost um: int = if dm[u as int] == w_prev { u as int } else { -1 };
+        let ghost mut seen: Set<int> = Set::empty();
+        proof {
+            broadcast use axiom_ord_le_reverse_key;
+            assert(hm.count(it0) > 0 && ha == hm.remove(it0));
+            assert(dj_inv(dg, dm, hm, s0));
+            lemma_pop(dg, dm, hm, s0, it0);
+            assert(keys_ge(hm, w_prev as int)) by {
+                assert forall|j: HItem| #[trigger] hm.count(j) > 0 implies j.0.0 >= w_prev by { assert(ord_le(j, it0)); }
+            }
+            assert forall|s: Set<int>| #[trigger] old(self).inv(s) implies dj_inv_x(dg, self.dist@, self.items(), s, um, seen)
+                && has_pwit(dg, self.dist@, s, u as int, w_prev as int) by {
+                lemma_pop(dg, dm, hm, s, it0);
+            }
+            lemma_relax_rel_refl(dm, ha, w_prev as int);
+        }
+    @loop 2
+    invariant
+        it2.iter.obeys_prophetic_iter_laws(),
+        it2.iter.decrease() is Some,
+        self.digraph == dg, dg.wf(),
+        d0 == old(self).dist@, h0 == old(self).items(), dg == old(self).digraph,
+        old(self).inv(s0),
+        dm.len() == dg.ord(), self.dist@.len() == dg.ord(), u < dg.ord(),
+        it0 == (Reverse(w_prev), u),
+        trans(d0, h0, dm, hm), hm.count(it0) > 0, ha == hm.remove(it0), keys_ge(hm, w_prev as int),
+        forall|j: HItem| #[trigger] hm.count(j) <= 1,
+        dm[u as int] <= w_prev, self.dist@[u as int] <= w_prev,
+        um == -1 || (um == u && self.dist@[u as int] == w_prev),
+        nbrs_ok(dg, u as int, it2.seq()),
+        forall|x: int| #[trigger] dg.has(u as int, x) ==> seen.contains(x) || later(it2.seq(), it2.index@, x),
+        forall|s: Set<int>| #[trigger] old(self).inv(s) ==> dj_inv_x(dg, self.dist@, self.items(), s, um, seen)
+            && has_pwit(dg, self.dist@, s, u as int, w_prev as int),
+        relax_rel(dm, ha, self.dist@, self.items(), w_prev as int),
+    @before `let w_next`
+        let ghost dpre = self.dist@;
+        let ghost hpre = self.items();
+        proof {
+            assert((v, w) == it2.seq()[it2.index@]);
+            assert(dg.has(u as int, v as int) && *w == dg.wt(u as int, v as int));
+            lemma_extend_pwit(dg, dpre, s0, u as int, w_prev as int, v as int);
+        }
+    @loop_end 2
+        proof {
+            if w_next < dpre[v as int] {
+                assert forall|s: Set<int>| #[trigger] old(self).inv(s) implies dj_inv_x(dg, self.dist@, self.items(), s, um, seen.insert(v as int))
+                    && has_pwit(dg, self.dist@, s, u as int, w_prev as int) by {
+                    lemma_relax_update(dg, dpre, hpre, s, um, seen, u as int, w_prev, v as int, w_next);
+                }
+                lemma_relax_rel_step(dm, ha, dpre, hpre, w_prev as int, v as int, w_next);
+            } else {
+                assert forall|s: Set<int>| #[trigger] old(self).inv(s) implies dj_inv_x(dg, self.dist@, self.items(), s, um, seen.insert(v as int)) by {
+                    lemma_relax_skip(dg, dpre, hpre, s, um, seen, u as int, w_prev, v as int);
+                }
+            }
+            assert forall|x: int| #[trigger] dg.has(u as int, x) implies seen.insert(v as int).contains(x) || later(it2.seq(), it2.index@ + 1, x) by {
+                if x != v && !seen.contains(x) {
+                    let i = choose|i: int| it2.index@ <= i < it2.seq().len() && (#[trigger] it2.seq()[i]).0 == x;
+                    assert(i != it2.index@);
+                }
+            }
+            seen = seen.insert(v as int);
+        }
+    @before `if unsafe`
+        proof {
+            assert forall|x: int| dg.has(um, x) implies seen.contains(x) by {
+                if um == u as int { assert(dg.has(u as int, x)); }
+            }
+            assert forall|s: Set<int>| #[trigger] old(self).inv(s) implies self.inv(s) by {
+                lemma_relax_done(dg, self.dist@, self.items(), s, um, seen);
+            }
+            lemma_compose(d0, h0, dm, hm, it0, self.dist@, self.items());
+            lemma_dsum_nonneg(self.dist@);
+            if w_prev == self.dist@[u as int] {
+                lemma_pwit_fits(dg, self.dist@, s0, u as int, w_prev as int);
+                assert forall|s: Set<int>| #[trigger] old(self).inv(s) implies is_min_walk_weight(has_of(dg), wt_of(dg), s, u as int, w_prev as int) by {
+                    lemma_settled(dg, self.dist@, self.items(), s, u as int, w_prev as int);
+                }
+                assert forall|s: Set<int>, em: Seq<(usize, usize)>| old(self).inv(s) && #[trigger] trace_inv(dg, d0, h0, s, em) implies trace_inv(dg, self.dist@, self.items(), s, em.push((u, w_prev))) by {
+                    lemma_trace_ret(dg, d0, h0, self.dist@, self.items(), s, em, u, w_prev);
+                }
+            }
+        }
+    @*/
+}
+
+/// Composition check for the plain `Dijkstra` iterator (client code, not crate code: the crate has no driver for it):
+/// draining a fresh iterator with `next` produces exactly the sequence C03 describes.
+fn harness_drain<'a>(it: &mut Dijkstra<'a>) -> (out: Vec<usize>)
+    requires
+        old(it).is_fresh(),
+        paths_fit(old(it).digraph, old(it).srcs()),
+    ensures
+        exists|em: Seq<(usize, usize)>| yields_ok(old(it).digraph, old(it).srcs(), em) && em.len() == out.len()
+            && forall|i: int| 0 <= i < out.len() ==> out[i] == (#[trigger] em[i]).0,
+{
+    let ghost s = it.srcs();
+    let ghost dg = it.digraph;
+    let ghost mut em: Seq<(usize, usize)> = Seq::empty();
+    let mut out: Vec<usize> = Vec::new();
+    proof { lemma_fresh_inv(dg, it.dist@, it.items()); }
+    loop
+        invariant
+            it.digraph == dg, dg == old(it).digraph, s == old(it).srcs(),
+            it.inv(s),
+            trace_inv(dg, it.dist@, it.items(), s, em),
+            em.len() == out.len(),
+            forall|i: int| 0 <= i < out.len() ==> out[i] == (#[trigger] em[i]).0,
+        ensures
+            it.items().len() == 0,
+        decreases
+            dsum(it.dist@), it.items().len(),
+    {
+        match it.next() {
+            Some(y) => {
+                proof { lemma_dsum_nonneg(it.dist@); em = em.push((y, it.dist@[y as int])); }
+                out.push(y);
+            }
+            None => { break; }
+        }
+    }
+    proof { lemma_trace_final(dg, it.dist@, it.items(), s, em); }
+    out
 }
 
 } // verus!
